@@ -595,8 +595,35 @@ class Body:
                 return ("fn", op["fn"], op.get("fnargs"))
             if "def" in op and "promoted" not in op:
                 return ("constdef", op["def"], op.get("bits"), op.get("val"))
+            if "promoted" in op:
+                pt = self.promoted_term(op["promoted"])
+                if pt is not None:
+                    return pt
             return ("const", op.get("val"), op.get("ty"), op.get("bits"))
         return ("other", str(op))
+
+    def promoted_term(self, idx):
+        """Value of the idx-th promoted constant of this body (e.g. `&Some(&f64::INFINITY)`) as a term, when its little body is straight-line; else None."""
+        memo = self.__dict__.setdefault("_prom_memo", {})
+        if idx in memo:
+            return memo[idx]
+        memo[idx] = None
+        proms = self.raw.get("promoted") or []
+        try:
+            idx = int(idx)
+        except (TypeError, ValueError):
+            return None
+        if idx >= len(proms) or self.raw.get("kind") == "Promoted":
+            return None
+        try:
+            pb = Body(proms[idx], self.facts)
+            if len(pb.reachable_blocks()) <= 3:
+                t = pb.term_local(0)
+                if isinstance(t, tuple) and t and t[0] not in ("var", "cyc", "other"):
+                    memo[idx] = t
+        except Exception:  # noqa
+            memo[idx] = None
+        return memo[idx]
 
     def term_rvalue(self, rv, loc=None):
         k = rv["k"]
@@ -928,6 +955,19 @@ class Facts:
         c = self.find(path)
         if len(c) == 1:
             return c[0]
+        if not c and isinstance(path, str) and path.startswith("prometheus::") and not path.startswith("<"):
+            # the function may have been moved to another module of the crate: the same item name (`Type::method`, or a free function's name) found exactly once
+            segs = strip_generics(path).split("::")
+            tail = segs[-2:] if (len(segs) >= 3 and segs[-2][:1].isupper()) else segs[-1:]
+            cands = []
+            for k in self.order:
+                ps = strip_generics(self.bodies[k].path).split("::")
+                if ps[-len(tail):] == tail and "{closure" not in self.bodies[k].path and not self.bodies[k].path.startswith("<"):
+                    if len(tail) == 1 and len(ps) >= 2 and ps[-2][:1].isupper():
+                        continue       # a method of some type is not the free function that was asked for
+                    cands.append(self.bodies[k])
+            if len(cands) == 1:
+                return cands[0]
         return None
 
     def find(self, pat):
@@ -955,7 +995,10 @@ class Facts:
         for p, a in self.adts.items():
             if p == pat or p.endswith("::" + pat):
                 return a
-        return None
+        # moved to another module of the crate: the same type name found exactly once
+        name = pat.split("::")[-1]
+        c = [a for p, a in self.adts.items() if p.split("::")[-1] == name and p.startswith("prometheus")]
+        return c[0] if len(c) == 1 else None
 
     def trait_impls(self):
         """trait item path -> list of impl method paths (local crate)."""
